@@ -606,6 +606,11 @@ class XsdElement(XsdComponent, ParticleMixin,
                 with self.maps.protect_status():
                     if ns in self.maps.namespaces:
                         schema = self.maps.namespaces[ns][0]
+                        if schema.maps is not self.maps:
+                            # A namespace owned by the meta-schema (or by a parent schema): a hint
+                            # of an instance must not be loaded through those shared maps, whose
+                            # settings are not the ones of this schema (allow='all').
+                            continue
                         schema.include_schema(url, context.source.base_url)
                     else:
                         schema = self.schema
@@ -1518,6 +1523,11 @@ class Xsd11Element(XsdElement):
                 with self.maps.protect_status():
                     if ns in self.maps.namespaces:
                         schema = self.maps.namespaces[ns][0]
+                        if schema.maps is not self.maps:
+                            # A namespace owned by the meta-schema (or by a parent schema): a hint
+                            # of an instance must not be loaded through those shared maps, whose
+                            # settings are not the ones of this schema (allow='all').
+                            continue
                         schema.include_schema(url, context.source.base_url)
                     else:
                         schema = self.schema
